@@ -87,8 +87,9 @@ inductive Prog where
   | forIdx (i : String) (coll : Expr) (body : Prog)    -- for i := 0; i < len(coll); i++  /  for i := range coll
   | brk
   | cont
+  | effect (src : String)     -- a statement that modifies the receiver (a Set… call): outside the embedding, the run is stuck
   | unknown (src : String)
-deriving Repr, Inhabited
+deriving Repr, Inhabited, DecidableEq
 
 def seqs : List Prog → Prog
   | [] => .skip
@@ -407,6 +408,7 @@ def exec : Prog → Ctx → Locals → Locals × Sig
       | .lst _ n => iter (fun l' => exec body cx l') (fun k => .int k) i (List.range n) l
       | .nilp => (l, .next)
       | _ => (l, .stuck "range")
+  | .effect _, _, l => (l, .stuck "effect")
   | .unknown _, _, l => (l, .stuck "unknown")
 
 inductive Outcome where
@@ -462,7 +464,7 @@ def progKnown : Prog → Bool
   | .sub _ _ args b => args.all exprKnown && progKnown b
   | .checkOn _ r _ args b | .subOn _ r _ args b => exprKnown r && args.all exprKnown && progKnown b
   | .forEach _ c b | .forIdx _ c b => exprKnown c && progKnown b
-  | .brk | .cont => true
+  | .brk | .cont | .effect _ => true
 
 /-- no reference to a relaxation flag -/
 def exprNoRelax : Expr → Bool
@@ -478,7 +480,7 @@ def exprNoRelax : Expr → Bool
   | _ => true
 
 def progNoRelax : Prog → Bool
-  | .skip | .unknown _ | .brk | .cont => true
+  | .skip | .unknown _ | .brk | .cont | .effect _ => true
   | .ret e | .bind _ e | .bind2 _ _ e | .assign _ e | .assign2 _ _ e => exprNoRelax e
   | .ite c t e => exprNoRelax c && progNoRelax t && progNoRelax e
   | .seq a b => progNoRelax a && progNoRelax b
@@ -572,7 +574,7 @@ def relaxOK : Prog → Bool
   | .checkOn _ r _ args b => exprNoRelax r && args.all exprNoRelax && relaxOK b
   | .subOn _ r _ args b => exprNoRelax r && args.all exprNoRelax && progNoRelax b
   | .forEach _ c b | .forIdx _ c b => exprNoRelax c && relaxOK b
-  | .brk | .cont => true
+  | .brk | .cont | .effect _ => true
   | .ite c t e =>
       if antiCond c then isSkip e && rejectOnly t && noAssign t && relaxOK t else
       match c with
